@@ -23,6 +23,11 @@ run(ctx)
       clause judged in each unit; add_circles with list / ndarray (caller-owned, checked unmodified) / tuple / mixed arguments,
       one call per circle on the same long-lived region with a query in between, and REPEATED bit-identical centres with
       different radii in every order.
+  2e. size thresholds: one circle just above 2^22 pixels (depth 11, r = 34 deg; thorough also depth 12 and a larger one) with a
+      dense ring of 240k-480k positions at r + (3.0 .. 3.6) pixel sizes plus interior / just-inside / gap / far positions in ONE
+      vector call; one vector sky_within call of 2^20 + 4321 positions (thorough also 2^21 + 12345, degin) compared with the same
+      positions in pieces of 2^17 + 13 and as scalars.  Bulk answers are screened with the Spec inequalities in numpy; every
+      screened failure and a regular sample are judged by the Lean Spec.
   3a. polygons straddling RA = 0 (4-8 vertices, circumcentre exactly on RA 0 at several decs) and centred exactly on both poles,
       regular and irregular, both vertex orders; add_poly raising on a polygon that healpy accepts with the model's arguments
       is a Spec failure (no region containing the interior is built).
@@ -1217,6 +1222,203 @@ def run_tip_cases(ctx, depths, npix, thorough, spec_only=False):
             return
 
 
+# ---------------------------------------------------------------------------------------------
+# size thresholds: a disc above 2^22 pixels with a dense ring just beyond r + 3 pixel sizes, and one vector query of
+# more than 2^20 positions (not a multiple of 2^20) compared with the same positions in pieces and as scalars
+# ---------------------------------------------------------------------------------------------
+
+def offset_vec(ra, dec, dist, bearing):
+    """vectorised `offset`: arrays of distances / bearings from one centre; returns (ra[], dec[])"""
+    c = unit(ra, dec)
+    north = np.array([-math.sin(dec) * math.cos(ra), -math.sin(dec) * math.sin(ra), math.cos(dec)])
+    east = np.array([-math.sin(ra), math.cos(ra), 0.0])
+    q = (np.cos(dist)[:, None] * c + np.sin(dist)[:, None] * (np.cos(bearing)[:, None] * north + np.sin(bearing)[:, None] * east))
+    d = np.arctan2(q[:, 2], np.hypot(q[:, 0], q[:, 1]))
+    a = np.mod(np.arctan2(q[:, 1], q[:, 0]), TWO_PI)
+    a[a >= TWO_PI] = 0.0
+    return a, np.clip(d, -HALF_PI, HALF_PI)
+
+
+def vincenty_vec(ra1, dec1, ra2, dec2):
+    dl = ra2 - ra1
+    s1, c1, s2, c2 = math.sin(dec1), math.cos(dec1), np.sin(dec2), np.cos(dec2)
+    y = np.hypot(c2 * np.sin(dl), c1 * s2 - s1 * c2 * np.cos(dl))
+    x = s1 * s2 + c1 * c2 * np.cos(dl)
+    return np.arctan2(y, x)
+
+
+def np_rng(ctx, tag):
+    return np.random.default_rng([ctx.seed, sum(map(ord, tag))])
+
+
+def judge_bulk_circle(ctx, case, ras, decs, tags, got, model, r, pix, sig_base, what_prefix='', sample_every=200, degin=False):
+    """Spec on a large vector of answers: every position is screened with the Spec's own inequalities in numpy; every
+    screened failure (up to 40) and every `sample_every`-th position is judged by the Lean Spec (`cspec`) and cross-checked
+    against Lean `sepHav`.  Returns number of Spec failures reported."""
+    c = case['circles'][0]
+    dist = vincenty_vec(c[0], c[1], ras, decs)
+    must_in = dist <= r
+    must_out = dist > r + 3 * pix
+    bad = (must_in & ~got) | (must_out & got)
+    idx = np.unique(np.concatenate([np.flatnonzero(bad)[:40], np.arange(0, len(ras), sample_every)]))
+    lines = []
+    for i in idx:
+        lines.append(f"cspec {f2h(r)} {f2h(pix)} {f2h(dist[i])} {1 if got[i] else 0}")
+        lines.append(f"sep {hexes(c[0], c[1], ras[i], decs[i])}")
+    ans = ctx.driver.batch(lines)
+    nfail = 0
+    for k, i in enumerate(idx):
+        verdict, ls = ans[2 * k], h2f(ans[2 * k + 1])
+        if abs(ls - dist[i]) > (1e-7 if dist[i] > 2.5 else 1e-11):
+            ctx.fail('corr', dict(case_pub(case), index=int(i)), f'Lean sepHav={ls!r} vs independent distance {dist[i]!r}', dict(sig_base, what='sep-crosscheck'))
+        if (verdict != 'ok') != bool(bad[i]):
+            ctx.fail('corr', dict(case_pub(case), index=int(i)), f'numpy screening and Lean Spec disagree at index {i}', dict(sig_base, what='screening'))
+        if verdict != 'ok':
+            nfail += 1
+            pt = [float(ras[i]), float(decs[i])]
+            ctx.fail('spec', dict(case_pub(case), point=[math.degrees(pt[0]), math.degrees(pt[1])] if degin else pt, tag=str(tags[i]), index=int(i),
+                                  npos=int(len(ras)), degin=degin, qform='array', inside=bool(got[i]), dist=float(dist[i]), r=r, pix=pix),
+                     f"position #{i} of {len(ras)} at distance {float(dist[i])!r} rad from the centre (r={r!r}, r+3pix={r + 3 * pix!r}, i.e. "
+                     f"r + {(float(dist[i]) - r) / pix:.3f} pixel sizes) reported {'inside' if got[i] else 'outside'}",
+                     dict(sig_base, what=what_prefix + ('circle-contains' if must_in[i] else 'circle-excludes'), degin=degin))
+    ctx.evaluations += int(len(ras))
+    ctx.count('bulk positions screened with the Spec inequalities in numpy', int(len(ras)))
+    ctx.count('bulk positions judged by the Lean Spec (sample + every screened failure)', int(len(idx)))
+    ctx.count('bulk must-in', int(must_in.sum()))
+    ctx.count('bulk must-out', int(must_out.sum()))
+    if model is not None:
+        dm = np.flatnonzero(model != got)
+        if len(dm) and not nfail:
+            i = int(dm[0])
+            ctx.fail('corr', dict(case_pub(case), point=[float(ras[i]), float(decs[i])], index=i),
+                     f'sky_within={bool(got[i])}, model={bool(model[i])} at index {i} ({len(dm)} positions differ)', dict(sig_base, what='within-model'))
+    return nfail
+
+
+def big_disc_case(ctx, depth, r, ra, dec, nring, tag):
+    """one circle above 2^22 pixels at `depth`; a dense ring of positions at r + (3.0 .. 3.6) pixel sizes, plus interior,
+    just-inside, gap and far positions, all in ONE vector call (< 2^20 positions)"""
+    import healpy as hp
+    from AegeanTools.regions import Region
+    pix = pix_size(depth)
+    rng = np_rng(ctx, tag)
+    case = dict(kind='big-disc', id=tag, maxdepth=depth, depth=depth, deff=depth, circles=[(ra, dec, r)], form='scalar',
+                centre_class='big-disc', nring=nring, est_pixels=6 * 4 ** depth * (1 - math.cos(r)))
+    sig_base = dict(shape='circle', centre='big-disc', form='scalar')
+    n_in = nring // 4
+    dist = np.concatenate([
+        r + pix * rng.uniform(3.0 + 1e-6, 3.6, nring),                        # the thin shell just beyond r + 3 px
+        r * np.sqrt(rng.uniform(0, 1, n_in)),                                 # interior
+        r * (1 - 10 ** rng.uniform(-7, -3, n_in)),                            # inside by eps
+        r + pix * rng.uniform(0, 3.0, n_in),                                  # free zone
+        rng.uniform(r + 3.6 * pix, math.pi, n_in)])                           # far
+    tags = np.array(['ring'] * nring + ['interior'] * n_in + ['in-eps'] * n_in + ['gap'] * n_in + ['far'] * n_in)
+    ras, decs = offset_vec(ra, dec, dist, rng.uniform(0, TWO_PI, len(dist)))
+    ctx.case(case_pub(case), ('big-disc', tag))
+    try:
+        stage = 'add_circles'
+        reg = Region(maxdepth=depth)
+        with Spied() as spy:
+            reg.add_circles(ra, dec, r, depth=depth)
+            calls = [a for n, a in spy.calls if n == 'query_disc']
+        stage = 'get_area'
+        areas = [('deg', float(reg.get_area(degrees=True))), ('sr', float(reg.get_area(degrees=False)))]
+        stage = 'sky_within'
+        got = np.asarray(reg.sky_within(ras, decs), dtype=bool)
+    except Exception as e:
+        ctx.fail('spec', dict(case_pub(case), observe=stage), f'{stage} raised {type(e).__name__}: {e} on a valid circle of {case["est_pixels"]:.3g} pixels',
+                 dict(sig_base, what='raises', stage=stage, error=type(e).__name__))
+        return
+    del reg
+    DEG2 = (180 / math.pi) ** 2
+    la = ctx.driver.batch([f"circ {depth} {depth} {hexes(ra, dec, r)}", f"pix {depth}"] +
+                          [f"aspec {f2h(r)} {depth} {f2h(v if u == 'sr' else v / DEG2)}" for u, v in areas])
+    w = la[0].split()
+    pm = dict(nside=int(w[1]), vec=np.array(parse_floats(w[2:5])), radius=h2f(w[5]), inclusive=w[6] == '1', nest=w[7] == '1')
+    ok = len(calls) == 1 and int(calls[0]['nside']) == pm['nside'] and bool(calls[0]['inclusive']) == pm['inclusive'] \
+        and bool(calls[0]['nest']) == pm['nest'] and int(calls[0]['fact']) == FACT_DEFAULT \
+        and args_close(calls[0]['vec'], pm['vec'], 1e-14) and common.close(float(calls[0]['radius']), pm['radius'], rel=1e-15)
+    if not ok:
+        ctx.fail('corr', case_pub(case), f"query_disc calls {[(int(a['nside']), float(a['radius']), bool(a['inclusive']), int(a['fact']), bool(a['nest'])) for a in calls]}; "
+                 f"model: nside={pm['nside']} radius={pm['radius']!r} inclusive={pm['inclusive']} fact={FACT_DEFAULT} nest={pm['nest']}",
+                 dict(sig_base, what='handoff-query_disc'))
+    D = hp.query_disc(pm['nside'], pm['vec'], pm['radius'], inclusive=pm['inclusive'], nest=pm['nest'])
+    pa = h2f(la[1].split()[1])
+    for (u, v), verdict in zip(areas, la[2:]):
+        ctx.case(dict(case_pub(case), kind='circle-area', unit=u), ('area', tag, u))
+        if verdict != 'ok':
+            ctx.fail('spec', dict(case_pub(case), observe='get_area', unit=u, area=v), f'get_area({u}) = {v!r} not between the caps of radius r and r + 3 pixel sizes',
+                     dict(sig_base, what='area-between-caps', unit=u))
+        elif not common.close(v if u == 'sr' else v / DEG2, len(D) * pa, rel=1e-9):
+            ctx.fail('corr', case_pub(case), f'get_area({u})={v!r}, model N*pixArea (N={len(D)})', dict(sig_base, what='area-model', unit=u))
+    model = np.isin(hp.ang2pix(2 ** depth, HALF_PI - decs, ras, nest=True), D)     # theta = pi/2 - dec, phi = ra (sky2ang_convention)
+    del D
+    judge_bulk_circle(ctx, case, ras, decs, tags, got, model, r, pix, sig_base)
+    ctx.count(f'big disc depth {depth}, {case["est_pixels"] / 2 ** 22:.2f} x 2^22 pixels')
+
+
+def big_query_case(ctx, n, tag, degin=False):
+    """ONE vector sky_within call with n > 2^20 positions (n not a multiple of 2^20), most of them interior, compared with
+    the same positions queried in pieces and (a sample, incl. the tail) as scalars; Spec on the full call's answers"""
+    from AegeanTools.regions import Region
+    depth = 8
+    pix = pix_size(depth)
+    rng = np_rng(ctx, tag)
+    ra, dec, r = float(rng.uniform(0, TWO_PI)), float(np.arcsin(rng.uniform(-0.9, 0.9))), math.radians(2.0)
+    case = dict(kind='big-query', id=tag, maxdepth=depth, depth=depth, deff=depth, circles=[(ra, dec, r)], form='scalar',
+                centre_class='big-query', npos=n, degin=degin)
+    sig_base = dict(shape='circle', centre='big-query', form='scalar')
+    dist = r * np.sqrt(rng.uniform(0, 1, n)) * (1 - 1e-6)
+    far = rng.uniform(0, 1, n) < 0.1
+    dist[far] = rng.uniform(r + 3.0001 * pix, math.pi, int(far.sum()))
+    ras, decs = offset_vec(ra, dec, dist, rng.uniform(0, TWO_PI, n))
+    tags = np.where(far, 'far', 'interior')
+    qa, qd = (np.degrees(ras), np.degrees(decs)) if degin else (ras, decs)
+    ctx.case(case_pub(case), ('big-query', tag))
+    try:
+        reg = Region(maxdepth=depth)
+        reg.add_circles(ra, dec, r, depth=depth)
+        keep = (qa.copy(), qd.copy())
+        got = np.asarray(reg.sky_within(qa, qd, degin=degin), dtype=bool)
+        if qa.tobytes() != keep[0].tobytes() or qd.tobytes() != keep[1].tobytes():
+            ctx.fail('spec', case_pub(case), 'sky_within modified the caller-owned position arrays', dict(sig_base, what='argument-mutated'))
+        step = 2 ** 17 + 13
+        pieces = np.concatenate([np.asarray(reg.sky_within(qa[i:i + step], qd[i:i + step], degin=degin), dtype=bool) for i in range(0, n, step)])
+        sidx = np.unique(np.concatenate([np.arange(0, n, n // 40), np.arange(n - 25, n)]))
+        scal = np.array([bool(np.ravel(reg.sky_within(float(qa[i]), float(qd[i]), degin=degin))[0]) for i in sidx])
+    except Exception as e:
+        ctx.fail('spec', dict(case_pub(case), observe='sky_within'), f'sky_within raised {type(e).__name__}: {e} on {n} valid positions',
+                 dict(sig_base, what='raises', stage='sky_within', error=type(e).__name__))
+        return
+    if len(got) != n:
+        ctx.fail('spec', case_pub(case), f'sky_within returned {len(got)} answers for {n} positions', dict(sig_base, what='answer-count'))
+        return
+    nfail = judge_bulk_circle(ctx, case, ras, decs, tags, got, None, r, pix, sig_base, sample_every=5000, degin=degin)
+    d1 = np.flatnonzero(got != pieces)
+    d2 = np.flatnonzero(got[sidx] != scal)
+    if (len(d1) or len(d2)) and not nfail:
+        i = int(d1[0]) if len(d1) else int(sidx[d2[0]])
+        ctx.fail('spec', dict(case_pub(case), index=i, point=[float(qa[i]), float(qd[i])]),
+                 f'the answer for position #{i} depends on how many positions are passed together: {bool(got[i])} in one call of {n}, '
+                 f'{bool(pieces[i])} in pieces of {step}', dict(sig_base, what='history-dependence', site='sky_within'))
+    ctx.count(f'big vector query: {n} positions in one call' + (' (degin)' if degin else ''))
+
+
+def size_cases(ctx):
+    quick = ctx.quick
+    big_query_case(ctx, 2 ** 20 + 4321, 'bigq-0')
+    if not quick:
+        big_query_case(ctx, 2 ** 21 + 12345, 'bigq-1', degin=True)
+    rng = ctx.rng
+    # just above the 2^22-pixel mark:  6 * 4^depth * (1 - cos r) = f * 2^22
+    def radius_for(depth, f):
+        return math.acos(1 - f * 2 ** 22 / (6 * 4 ** depth))
+    specs = [(11, 1.02)] if quick else [(11, 1.02), (12, 1.05), (11, 1.6)]
+    for j, (depth, f) in enumerate(specs):
+        ra, dec = gen_centre(rng, ['generic', 'nearpole', 'ra0wrap'][j % 3])
+        big_disc_case(ctx, depth, radius_for(depth, f), ra, dec, 240000 if quick else 480000, f'bigdisc-{depth}-{f}')
+
+
 def circle_gen(ctx, k, budget, n_each, spec_only=False):
     case = make_circle_case(ctx, k, budget)
     c0 = case['circles'][0]
@@ -1297,6 +1499,7 @@ def run(ctx):
     for k0 in range(0, npoly, CHUNK):
         drive(ctx, [poly_gen(ctx, k + 10 * ctx.seed, budget, n_each)[1] for k in range(k0, min(npoly, k0 + CHUNK))])
     run_tip_cases(ctx, range(3, 9) if quick else range(3, 13), 2 if quick else 5, thorough=not quick)
+    size_cases(ctx)
     wp = wrap_poly_cases(ctx, thorough=not quick)
     for k0 in range(0, len(wp), 4 * CHUNK):
         gens = []
@@ -1367,6 +1570,11 @@ def replay(ctx, rec):
     kind = case.get('kind')
     if kind in ('sky2vec', 'sky2ang', 'vec2sky', 'roundtrip'):
         return conversion_checks(ctx, 50)
+    if kind == 'big-query':
+        return big_query_case(ctx, case['npos'], case['id'], degin=bool(case.get('degin')))
+    if kind == 'big-disc' or (kind == 'circle-area' and case.get('centre_class') == 'big-disc'):
+        c = case['circles'][0]
+        return big_disc_case(ctx, case['maxdepth'], c[2], c[0], c[1], case.get('nring', 240000), case['id'])
     pts = []
     if 'point' in case:
         p = case['point']
